@@ -3,6 +3,7 @@
 package palsd
 
 import (
+	"encoding/json"
 	"fmt"
 	"io/ioutil"
 	"math/rand"
@@ -133,12 +134,29 @@ func Case(w *vt.W, rng *rand.Rand, id, maxLen int) {
 		// identity comfortably above the threshold: at most a third of the allowed differences
 		budget := int(float64(ln) * (1 - minID) / 3)
 		subs, indels := 0, 0
-		switch rng.Intn(3) {
+		switch rng.Intn(4) {
 		case 1:
 			subs = rng.Intn(budget + 1)
 		case 2:
 			subs = rng.Intn(budget/2 + 1)
 			indels = rng.Intn(budget/4 + 1)
+		case 3:
+			// one run of 1..MaxIGap inserted or deleted bases in an otherwise exact copy, away from its ends:
+			// the longest gap the aligner is documented to extend through
+			if g := 1 + rng.Intn(pals.MaxIGap); ln >= 60 && g <= budget {
+				indels = g
+				at := 20 + rng.Intn(ln-40)
+				if rng.Intn(2) == 0 {
+					cp = append(cp[:at], cp[at+g:]...)
+				} else {
+					cp = append(cp[:at], append(randSeq(rng, g), cp[at:]...)...)
+				}
+				rev := rng.Intn(3) == 0
+				if rev {
+					cp = revcomp(cp)
+				}
+				return ta, ta + ln, rev, 0, indels, cp
+			}
 		}
 		cp = mutate(rng, cp, subs, indels)
 		rev := rng.Intn(3) == 0
@@ -192,7 +210,13 @@ func Case(w *vt.W, rng *rand.Rand, id, maxLen int) {
 		}
 		// a short repeat (a fifth longer than the minimum) whose only differences are two substitutions near
 		// its ends, so that the k-mers it shares with the target span less than the minimum hit length
-		if ln := minLen * 6 / 5; (shortEnds || rng.Intn(2) == 0) && int(float64(ln)*(1-minID)/3) >= 2 {
+		// Only under identity thresholds from 0.9 (filter word length 10 and more). Below, Optimise chooses words
+		// of 5 or 6 letters, the filter is unspecific, the merged trapezoid is the whole comparison, and the
+		// aligner's recursion - which cuts a trapezoid along the query at the ends of the best local path through
+		// its middle row - loses about 1 in 100 of these short copies to a cut through the copy (measured on
+		// the unchanged tree; recorded as a finding, whose recorded comparison witness/C15-short-repeat-k5.json is
+		// repeated in every run). The random stream is consumed all the same.
+		if ln := minLen * 6 / 5; (shortEnds || rng.Intn(2) == 0) && int(float64(ln)*(1-minID)/3) >= 2 && minID >= 0.9 {
 			d := 7 + rng.Intn(4)
 			ta := rng.Intn(len(T) - ln)
 			cp := append([]byte{}, T[ta:ta+ln]...)
@@ -249,7 +273,41 @@ func Case(w *vt.W, rng *rand.Rand, id, maxLen int) {
 			}
 		}
 	}
+	if only := os.Getenv("VERIF_ONLY_CASE"); only != "" && only != fmt.Sprint(id) {
+		return // replaying one case by hand: the others are generated (same random stream) but not run
+	}
 	w.Emit(runCase(id, T, Q, self, minLen, minID, plants))
+}
+
+// Witness repeats the recorded comparison of a listed finding (witness/*.json) on the real pipeline.
+func Witness(w *vt.W, file string) {
+	b, err := ioutil.ReadFile(file)
+	if err != nil {
+		vt.Fatal("witness: %v", err)
+	}
+	var wit struct {
+		Key    string
+		MinLen int
+		MinID  float64
+		Self   bool
+		T, Q   string
+		Plants []struct {
+			TA, TB, QA, QB int
+			Rev            bool
+			Subs, Indels   int
+			Marginal       bool
+		}
+	}
+	if err := json.Unmarshal(b, &wit); err != nil {
+		vt.Fatal("witness %s: %v", file, err)
+	}
+	var plants []Plant
+	for _, p := range wit.Plants {
+		plants = append(plants, Plant{p.TA, p.TB, p.QA, p.QB, p.Rev, p.Subs, p.Indels, p.Marginal})
+	}
+	ev := runCase(0, []byte(wit.T), []byte(wit.Q), wit.Self, wit.MinLen, wit.MinID, plants)
+	ev["witness"] = wit.Key
+	w.Emit(ev)
 }
 
 // runCase runs Optimise, BuildIndex and both Align passes on one comparison and returns its record.
